@@ -1483,6 +1483,9 @@ class Interp:
                         text_loop = '@loop%d' % k_
                 if text == htext or (text_loop is not None and text_loop == htext):
                     self.apply_uses(uses, fr)
+                    for h2, _why, e_ in c.assumes_at:
+                        if h2 == htext:
+                            self.path.assume(self.truth(self.ev(e_, self.spec_frame(fr))))
                     # intermediate assertions (cut points) proved at this program point, just before the statement
                     sf = self.spec_frame(fr)
                     for i, chk in enumerate(checks):
